@@ -962,6 +962,8 @@ class StmtsMixin:
 
     def items_for(self, node, items: ItemsObj, st, ordn, spec):
         mv = items.mapval
+        if isinstance(mv.shape, MapS):
+            return self.map_items_for(node, mv, st, ordn, spec)
         if not isinstance(mv.shape, DictS):
             raise OutOfSubset("iteration over the items of " + repr(mv.shape))
         keys = mv.d[1]
@@ -979,6 +981,29 @@ class StmtsMixin:
         tnames = assigned_in([ast.Assign(targets=[node.target], value=ast.Constant(0))])
         return self.cut_loop(node, st, ordn, spec, lo=z3.IntVal(0), hi=keys.d[1], bind=bind, extra_mod=tnames,
                              builtin_facts=lambda s, it: [it >= 0, it <= keys.d[1]], seq=keys)
+
+
+    def map_items_for(self, node, mv, st, ordn, spec):
+        """Iteration over a map whose insertion order is not modelled: an unknown number of
+        iterations, each over SOME present key (an over-approximation of the real iteration:
+        order, distinctness and completeness are dropped, so only facts true of every stored
+        item can be used)."""
+        ms = mv.shape
+        n = z3.Int(V.fresh_name("nkeys"))
+        st.pc.append(n >= 0)
+
+        def bind(s, it):
+            kv = V.fresh(ms.key, "mkey")
+            s.assume(V.wf(kv))
+            k = V.leaves(kv)[0]
+            val = V.from_leaves(ms.val, [z3.Select(a, k) for a in mv.d[1]])
+            s.assume(Q.deep_wf(self, val))
+            s.assume(z3.Select(mv.d[0], k))
+            self.bind_target(node.target, V.vtup([kv, val]), s)
+
+        tnames = assigned_in([ast.Assign(targets=[node.target], value=ast.Constant(0))])
+        return self.cut_loop(node, st, ordn, spec, lo=z3.IntVal(0), hi=n, bind=bind, extra_mod=tnames,
+                             builtin_facts=lambda s, it: [it >= 0, it <= n], seq=None)
 
 
 def _load(t):
